@@ -1,5 +1,5 @@
 """Helpers imported by generated harnesses (run inside the CrossHair process and in replays)."""
-from types import SimpleNamespace as NS  # noqa: F401
+from vf.fakes import Stub as NS  # noqa: F401  (namespace whose unknown attributes raise Unsupported)
 
 try:
     import vf.ch_templates as tpl
@@ -7,6 +7,10 @@ except Exception:  # noqa: BLE001  (plain replay without crosshair importable)
     tpl = None
 
 L, R = "\ue000", "\ue001"
+
+
+class GluedDigit(Exception):
+    pass
 
 
 def holes_reset():
@@ -20,6 +24,10 @@ def num_at(s, i):
     n = len(s)
     if i < n and s[i] == L:
         j = s.index(R, i)
+        if j + 1 < n and s[j + 1] in "0123456789":
+            # a digit glued to a rendered number would be read as part of the number: the template
+            # abstraction cannot represent that, so the text is reported as not decodable
+            raise GluedDigit("digit follows a rendered number")
         return tpl.HOLES[int(s[i + 1:j])], j + 1
     j = i
     if j < n and s[j] == "-":
@@ -133,7 +141,10 @@ def units_to_codepoints(units):
 
 def decodes_to(out, cps):
     """True iff the text run `out` is read back by an RTF reader as exactly the code points cps."""
-    units = rtf_decode_text(out)
+    try:
+        units = rtf_decode_text(out)
+    except GluedDigit:
+        return False
     if units is None:
         return False
     got = units_to_codepoints(units)
